@@ -383,6 +383,20 @@ func (e *Engine) symLoad(p *SymPtr) Value {
 	first := true
 	w := e.scalar(p.n.etyp).w
 	isScalar := e.scalar(p.n.etyp).kind != 0 && e.scalar(p.n.etyp).kind != 4
+	if isScalar && p.idx.op != OpConst {
+		budget := 64
+		okAll := true
+		t, ok := e.tt.MapLeaves(p.idx, func(i uint64) *Term {
+			if int(i) < p.lo || int(i) >= p.hi {
+				okAll = false
+				return e.tt.Const(0, w)
+			}
+			return e.term(p.n.flat[int(i)], w)
+		}, &budget)
+		if ok && okAll {
+			return scalarOfTerm(e.tt.IdentityChain(t))
+		}
+	}
 	for i := p.hi - 1; i >= p.lo; i-- {
 		el := p.n.flat[i]
 		if first {
@@ -635,7 +649,7 @@ func (e *Engine) indexAddr(x, idx Value, ins *ssa.IndexAddr) Value {
 	default:
 		e.unsupported("IndexAddr on " + ins.X.Type().String())
 	}
-	if idx.T != nil && arr != nil && arr.kind == nkArrFlat && ln <= 1024 {
+	if idx.T != nil && arr != nil && arr.kind == nkArrFlat && ln <= 1024 && e.scalar(arr.etyp).kind != 0 && e.scalar(arr.etyp).kind != 4 {
 		if _, known := e.ps.eqs[idx.T]; !known {
 			// symbolic element pointer: decide in-range vs out-of-range only
 			it := e.extend(idx.T, isi, 64)
@@ -689,6 +703,20 @@ func (e *Engine) indexValue(x, idx Value, xt, it, rt types.Type) Value {
 					e.goPanicStr(fmt.Sprintf("runtime error: index out of range [symbolic] with length %d", ln))
 					panic(goPanicSignal{})
 				}
+				{
+					budget := 64
+					okAll := true
+					t, ok := e.tt.MapLeaves(t64, func(i uint64) *Term {
+						if i >= uint64(ln) {
+							okAll = false
+							return e.tt.Const(0, 8)
+						}
+						return e.term(s.at(int(i)), 8)
+					}, &budget)
+					if ok && okAll {
+						return scalarOfTerm(e.tt.IdentityChain(t))
+					}
+				}
 				var res Value
 				for i := ln - 1; i >= 0; i-- {
 					el := s.at(i)
@@ -731,6 +759,24 @@ func (e *Engine) indexValue(x, idx Value, xt, it, rt types.Type) Value {
 					panic(goPanicSignal{})
 				}
 				ew := e.scalar(u.Elem()).w
+				{
+					budget := 64
+					okAll := true
+					t, ok := e.tt.MapLeaves(t64, func(i uint64) *Term {
+						if i >= uint64(ln) {
+							okAll = false
+							return e.tt.Const(0, ew)
+						}
+						var el Value
+						if tp != nil {
+							el = tp.e[int(i)]
+						}
+						return e.term(el, ew)
+					}, &budget)
+					if ok && okAll {
+						return scalarOfTerm(e.tt.IdentityChain(t))
+					}
+				}
 				var res Value
 				for i := ln - 1; i >= 0; i-- {
 					var el Value
